@@ -52,6 +52,7 @@ def case_strategy(draw, ctx):
     allow_bloch = draw(st.integers(0, 3)) == 0
     faces = draw(scenes.faces_strategy(kinds=("none", "pec", "pmc", "periodic", "pml"), pml_thickness=(2, 3),
                                        allow_bloch=allow_bloch))
+    variants = [draw(st.sampled_from(["quasi", "realvol", "realvol"])), draw(st.sampled_from(["rect0", "rectc"]))]
     shape = []
     for ax in range(3):
         n = draw(st.integers(4, 8))
@@ -59,7 +60,8 @@ def case_strategy(draw, ctx):
             f = faces[f"{side}_{scenes.AXNAME[ax]}"]
             if f["kind"] == "pml":
                 n += f["thickness"]
-        shape.append(n + (n % 2))
+        # QuasiUniformGrid rejects odd cell counts; the other descriptions are compared on odd counts too
+        shape.append(n + (n % 2) if variants[0] == "quasi" else n)
     steps = draw(st.integers(10, 30))
     has_bloch = any(f["kind"] == "bloch" for f in faces.values())
     interior = scenes.interior_range(shape, faces)
@@ -98,10 +100,16 @@ def case_strategy(draw, ctx):
     # partial_real_position + partial_real_shape (no constraint) - its placement depends on where each grid
     # description puts the domain centre
     if draw(st.booleans()):
-        size = [2 * draw(st.integers(1, max(1, shape[a] // 2 - 1))) for a in range(3)]
+        # the box's cell-count parity matches the axis' parity, so its edges fall on grid edges (an even box centred in
+        # an odd axis would sit on a half-cell tie that round-off resolves differently per description - undefined)
+        size = [2 * draw(st.integers(1, max(1, shape[a] // 2 - 1))) + (shape[a] % 2) for a in range(3)]
         off = [draw(st.integers(-(shape[a] - size[a]) // 2, (shape[a] - size[a]) // 2)) for a in range(3)]
         spec["rp_box"] = {"size": size, "offset": off, "eps": draw(st.sampled_from([1.7, 3.0]))}
-    variants = [draw(st.sampled_from(["quasi", "quasi", "realvol"])), draw(st.sampled_from(["rect0", "rectc"]))]
+    # and, in half of the scenes, a box placed by ABSOLUTE real coordinates (RealCoordinateConstraint): in a policy grid
+    # these refer to the documented origin (domain centred on 0), in the explicit grids to their own edge arrays
+    if draw(st.booleans()):
+        lo, hi = draw(scenes.box_strategy(shape))
+        spec["abs_box"] = {"lo": lo, "hi": hi, "eps": draw(st.sampled_from([2.2, 4.0]))}
     return {"scene": spec, "variants": variants}
 
 
@@ -133,6 +141,15 @@ def _build(spec, lane, variant):
     ref = dict(spec)
     ref["grid"] = {"kind": "uniform"}
     objs, cons, vol = scenes.build_objects(s, lane, scenes.make_config(ref, lane))
+    if spec.get("abs_box"):
+        ab = spec["abs_box"]
+        # edge i of axis a: policy grids and the centred explicit grid are centred on 0, the rect0 grid starts at 0
+        org = [0.0 if variant == "rect0" else -shape[a] * d / 2.0 for a in range(3)]
+        box = fdtdx.UniformMaterialObject(name="absbox", material=fdtdx.Material(permittivity=ab["eps"]), placement_order=6)
+        objs.append(box)
+        cons.append(fdtdx.RealCoordinateConstraint(
+            object="absbox", axes=(0, 1, 2, 0, 1, 2), sides=("-", "-", "-", "+", "+", "+"),
+            coordinates=tuple(org[a] + ab["lo"][a] * d for a in range(3)) + tuple(org[a] + ab["hi"][a] * d for a in range(3))))
     if spec.get("rp_box"):
         rb = spec["rp_box"]
         objs.append(fdtdx.UniformMaterialObject(
@@ -219,7 +236,7 @@ def body(ctx, case):
 
 
 SUBS = [
-    Sub(name="grid_descriptions", body=body, strategy=lambda ctx: case_strategy(ctx), quick=8, thorough=360,
+    Sub(name="grid_descriptions", body=body, strategy=lambda ctx: case_strategy(ctx), quick=12, thorough=360,
         lanes=("f64", "f32"), f32_fraction=0.25, quick_shards=2,
         rule="one random scene under UniformGrid / QuasiUniformGrid / explicit RectilinearGrid descriptions"),
 ]
